@@ -28,7 +28,17 @@ PROBES = {
     "selectSavesPrev": (["cfg mode=select timeout=10", "start", "arrive 0", "arrive 1", "round", "cclose 0",
                          "tick 11000", "round"],
                         lambda l: " 1:%d:10000:x" % CLOCK0 in l),
+    # F11e: a connection stamped after a small backward clock jump goes to its sorted place, not to the head
+    "actSortedInsert": (["cfg mode=select timeout=10", "start", "arrive 0", "arrive 1", "round", "tick 1000", "send 0",
+                         "round", "tickback 300", "send 1", "round"],
+                        lambda l: " N=[0,1] " in l),
 }
+FLAGS = ("optSortedInsert", "optWhileSuspended", "stampAtProcess", "hintCmpSafe", "selectSavesPrev", "actSortedInsert")
+HARNESS_EXCLUDE = ("mhd_mono_clock.c", "daemon.c")     # daemon.c is #included by the harness (white-box `conv`)
+
+
+def build_harness():
+    return vlib.build_daemon_harness(name="h_tmo", src="harness/h_tmo.c", exclude=HARNESS_EXCLUDE)
 
 
 def _const(pattern, text, name, default):
@@ -41,7 +51,8 @@ def _const(pattern, text, name, default):
 
 def gen_tmo(harness=None):
     """constants by source pattern (fallback: last committed value, the correspondence decides);
-    the behaviour flags by running five probe scripts on the real code"""
+    the behaviour flags by running six probe scripts on the real code; the type sizes the conversion
+    model (Mhd.Model.TmoConv) is written for are checked against MHD_config.h"""
     from extract import src, HEADER
     conn = src("src/microhttpd/connection.c")
     dae = src("src/microhttpd/daemon.c")
@@ -55,8 +66,23 @@ def gen_tmo(harness=None):
         _const(r"$^", "", "halfRange", "9223372036854775807")
     gran = _const(r"else if \(since_actv == timeout\).*?return (\d+);", body, "granularity", "100")
     mps = _const(r"connection->connection_timeout_ms = \(\(uint64_t\) ui_val\) \* (\d+);", conn, "msPerSec", "1000")
+    cfgh = open("/repo/MHD_config.h").read()
+    sizes = {k: int(re.search(r"#define %s (\d+)" % k, cfgh).group(1)) for k in
+             ("SIZEOF_INT", "SIZEOF_UINT64_T", "SIZEOF_UNSIGNED_LONG_LONG", "SIZEOF_STRUCT_TIMEVAL_TV_SEC")}
+    if sizes != {"SIZEOF_INT": 4, "SIZEOF_UINT64_T": 8, "SIZEOF_UNSIGNED_LONG_LONG": 8, "SIZEOF_STRUCT_TIMEVAL_TV_SEC": 8}:
+        raise RuntimeError("Mhd.Model.TmoConv models the LP64 configuration, MHD_config.h says %s" % sizes)
+    # the two inline conversions of thread_main_handle_connection / MHD_select have no function to call:
+    # the modelled expressions are tied to the source text
+    for pat in (r"tv\.tv_sec = \(_MHD_TIMEVAL_TV_SEC_TYPE\) mseconds_left / 1000;",
+                r"tv\.tv_usec = \(\(uint16_t\) \(mseconds_left % 1000\)\) \* \(\(int32_t\) 1000\);",
+                r"if \(mseconds_left >= INT_MAX\)\s+timeout_val = INT_MAX;\s+else\s+#endif[^\n]*\n\s+timeout_val = \(int\) mseconds_left;",
+                r"timeout\.tv_sec = \(_MHD_TIMEVAL_TV_SEC_TYPE\) \(select_tmo / 1000\);",
+                r"timeout\.tv_usec = \(\(uint16_t\) \(select_tmo % 1000\)\) \* \(\(int32_t\) 1000\);",
+                r"if \( \(0 < millisec\) &&\s+\(mhd_tmo > \(uint64_t\) millisec\) \)\s+select_tmo = \(uint64_t\) millisec;\s+else\s+select_tmo = mhd_tmo;"):
+        if not re.search(pat, dae):
+            raise RuntimeError("daemon.c: inline timeout conversion no longer matches the modelled text: " + pat)
     if harness is None:
-        harness = vlib.build_daemon_harness(name="h_tmo", src="harness/h_tmo.c")
+        harness = build_harness()
     flags = {}
     for name, (script, pred) in PROBES.items():
         out, rc, err = vlib.run_lines(harness, ["case probe"] + script)
@@ -73,8 +99,8 @@ def gen_tmo(harness=None):
         "def granularity : Nat := %s\n" \
         "/-- seconds -> milliseconds factor of MHD_CONNECTION_OPTION_TIMEOUT / MHD_OPTION_CONNECTION_TIMEOUT -/\n" \
         "def msPerSec : Nat := %s\n" \
-        "/-- behaviour of this tree, probed on the real code by five tiny scripts (see gen_tmo) -/\n" % (jb, half, gran, mps)
-    for name in ("optSortedInsert", "optWhileSuspended", "stampAtProcess", "hintCmpSafe", "selectSavesPrev"):
+        "/-- behaviour of this tree, probed on the real code by six tiny scripts (see gen_tmo) -/\n" % (jb, half, gran, mps)
+    for name in FLAGS:
         out += "def %s : Bool := %s\n" % (name, "true" if flags[name] else "false")
     out += "end Mhd.Gen.Tmo\n"
     vlib.write_if_changed(GENFILE, out)
@@ -108,7 +134,11 @@ class Oracle:
     """C10 re-stated over the script and what the real code reported.  Per-connection
     bookkeeping only: expected timeout from the script, idle time from the reported
     last-activity stamp (itself checked against the script), suspended state from the
-    callbacks.  Knows nothing about the daemon's lists or the Lean model."""
+    callbacks.  Knows nothing about the daemon's lists or the Lean model.
+    Clock: `hw` is the highest value the virtual clock has shown; the jump is "small" while
+    hw - now <= 5000.  Idle time is now - last_activity on the virtual clock (negative while
+    the clock is behind the stamp).  With a small displacement everything is claimed; with a
+    larger one only the function-level rule and what does not depend on the clock."""
 
     def __init__(self, mode, dflt):
         self.mode, self.dflt = mode, dflt * 1000
@@ -116,8 +146,9 @@ class Oracle:
         self.prev = None        # previous parsed line
         self.susp = set()       # suspended as far as the callbacks / script say
         self.resume_req = set()
-        self.jumped = False     # a backward clock jump happened: idle bookkeeping is relaxed
+        self.hw = CLOCK0        # high-water mark of the virtual clock
         self.sent_at = {}       # c -> virtual time of the oldest client byte not yet certainly read
+        self.sent_rounds = {}   # c -> clock values of the rounds since then (a read stamps one of them)
         self.elig = {}          # c -> number of complete rounds since then in which c could read
         self.client_closed = set()
 
@@ -133,8 +164,9 @@ class Oracle:
         closed_to = [int(e[2:]) for e in p["ev"] if e.startswith("to")]
         closed_other = [int(e[2:].split(":")[0]) for e in p["ev"] if e.startswith("co")]
         newly_x = [c for c in cs if cs[c]["x"] and not (c in pcs and pcs[c]["x"])]
-        if k == "tickback":
-            self.jumped = True
+        self.hw = max(self.hw, now)
+        back = self.hw - now
+        small = back <= 5000
         if k == "arrive":
             self.texp[int(w[1])] = self.dflt
         if k == "cclose":
@@ -147,6 +179,7 @@ class Oracle:
         if k in ("send", "sendp"):
             self.sent_at.setdefault(int(w[1]), now)
             self.elig.setdefault(int(w[1]), 0)
+            self.sent_rounds.setdefault(int(w[1]), set())
         if k == "resume":
             self.resume_req.add(int(w[1]))
         for e in p["ev"]:
@@ -172,8 +205,8 @@ class Oracle:
                     err = err or "connection without timeout closed for timeout"
                 elif idle >= 0 and idle <= t:
                     err = err or "closed for timeout while idle %d ms <= %d ms" % (idle, t)
-                elif idle < 0 and -idle <= 5000:
-                    err = err or "closed for timeout after a clock jump back of %d ms" % (-idle)
+                elif idle < 0 and (-idle <= 5000 or small):
+                    err = err or "closed for timeout with the clock %d ms behind the stamp (clock %d ms behind its high-water mark)" % (-idle, back)
             for c in closed_to:
                 if c not in newly_x and c in cs and not err:
                     err = "TIMEOUT_REACHED reported but connection not closed"
@@ -192,18 +225,19 @@ class Oracle:
                 if st["x"] or st["s"] or st["tmo"] == 0 or c not in pcs or pcs[c]["s"]:
                     continue        # not established before this round / suspended: not processed as a peer
                 idle = now - st["la"]
-                if idle > st["tmo"] and not cut and not self.jumped:
+                if idle > st["tmo"] and not cut:
                     err = err or "idle %d ms > %d ms but not closed by this round" % (idle, st["tmo"])
             # ---- activity is registered
             for c in list(self.sent_at):
+                self.sent_rounds[c].add(now)
                 if c in cs and c in pcs and not pcs[c]["s"] and not pcs[c]["x"] and c not in self.resume_req:
                     self.elig[c] += 1
-                    if cs[c]["la"] >= self.sent_at[c] or cs[c]["tmo"] == 0 or cs[c]["x"]:
-                        del self.sent_at[c]; del self.elig[c]
-                    elif self.elig[c] >= 2 and not self.jumped and not cut:
+                    if cs[c]["la"] >= self.sent_at[c] or cs[c]["la"] in self.sent_rounds[c] or cs[c]["tmo"] == 0 or cs[c]["x"]:
+                        del self.sent_at[c]; del self.elig[c]; del self.sent_rounds[c]
+                    elif self.elig[c] >= 2 and not cut:
                         err = err or "client byte sent at %d not registered as activity after two rounds" % self.sent_at[c]
                 elif c not in cs and c in pcs:
-                    del self.sent_at[c]; del self.elig[c]
+                    del self.sent_at[c]; del self.elig[c]; del self.sent_rounds[c]
         # ---- the hint
         live = [c for c in cs if not cs[c]["s"] and cs[c]["tmo"] != 0]
         pend = ("n" in p["fl"]) or ("r" in p["fl"]) or ("d" in p["fl"]) or ("c" in p["fl"])
@@ -213,21 +247,22 @@ class Oracle:
             if pend:
                 if p["hint"] != 0:
                     err = "hint is %s although work is pending (flags '%s', eready %s)" % (p["hint"], p["fl"], p["E"])
-            elif self.jumped:
-                pass    # after a backward clock jump only the function-level rule is claimed
+            elif not small:
+                pass    # clock more than 5000 ms behind its high-water mark: only the function-level rule is claimed
             elif live:
                 rem = min(max(0, cs[c]["la"] + cs[c]["tmo"] - now) for c in live)
                 if p["hint"] is None:
                     err = "no hint although a connection times out in %d ms" % rem
                 elif p["hint"] > rem + 100:
-                    err = "hint %d ms exceeds earliest deadline in %d ms + 100" % (p["hint"], rem)
+                    err = "hint %d ms exceeds earliest deadline in %d ms + 100%s" % (
+                        p["hint"], rem, " (clock %d ms behind its high-water mark)" % back if back else "")
             elif p["hint"] is not None:
                 err = "hint %s although nothing is pending and nothing can time out" % p["hint"]
-        # ---- time stamps never lie in the future of a monotone clock
-        if not err and not self.jumped:
+        # ---- no time stamp lies beyond the highest value the clock has shown
+        if not err:
             for c in cs:
-                if cs[c]["tmo"] != 0 and cs[c]["la"] > now:
-                    err = "last activity %d in the future (now %d)" % (cs[c]["la"], now)
+                if cs[c]["tmo"] != 0 and cs[c]["la"] > self.hw:
+                    err = "last activity %d beyond the highest clock value %d (now %d)" % (cs[c]["la"], self.hw, now)
         self.prev = p
         return err
 
@@ -245,7 +280,7 @@ def gen_history(rng, name):
     n = rng.choice([2, 3, 3])
     arrived = set()
     nops = rng.randint(6, 22)
-    jump = rng.random() < 0.12
+    jump = rng.random() < 0.35
     for c in range(rng.randint(1, n)):
         lines.append("arrive %d" % c); arrived.add(c)
     lines.append("round")
@@ -294,9 +329,10 @@ def gen_history(rng, name):
                 lines.append("round")
         elif r < 0.92:
             lines.append("cclose %d" % c); lines.append("round")
-        elif r < 0.96 and jump:
-            lines.append("tickback %d" % rng.choice([1, 100, 4999, 5000, 5001, 6000, Tm]))
-            lines.append("round")
+        elif r < 0.97 and jump:
+            lines.append("tickback %d" % rng.choice([1, 50, 100, 101, 300, 300, 1000, 2500, 2500, 4999, 5000, 5001, 6000, Tm]))
+            if rng.random() < 0.5:
+                lines.append("round")
         else:
             lines.append("round")
     lines += ["round", "tick %d" % (Tm + 1), "round", "round"]
@@ -330,6 +366,103 @@ def gen_exhaustive(depth):
                 yield lines
 
 
+# backward clock jumps at every position of three base histories (move-to-front, suspend/resume + a new
+# connection, overrides incl. back to the default), alone and followed by a round; pairs of jumps whose sum
+# stays within / exceeds the 5000 ms tolerance
+JBASES = [
+    ["arrive 0", "arrive 1", "round", "tick 1000", "send 0", "round", "tick 500", "send 1", "round", "tick 700", "send 0",
+     "round", "tick 9000", "round", "tick 400", "round", "tick 400", "round", "tick 700", "round", "round"],
+    ["arrive 0", "arrive 1", "round", "send 0", "send 1", "round", "susp 0", "send 0", "round", "tick 800", "arrive 2",
+     "resume 0", "round", "tick 600", "send 1", "round", "tick 9500", "round", "tick 500", "round", "tick 600", "round", "round"],
+    ["arrive 0", "arrive 1", "arrive 2", "round", "set-timeout 0 5", "tick 1200", "send 1", "round", "set-timeout 0 10",
+     "tick 900", "send 2", "round", "set-timeout 2 7", "tick 6000", "round", "tick 3000", "round", "tick 1100", "round", "round"],
+]
+JUMPS_Q = [1, 100, 101, 300, 2500, 5000]
+JUMPS_T = [1, 2, 5, 10, 50, 99, 100, 101, 150, 300, 500, 999, 1000, 2500, 4999, 5000]
+JPAIRS = [(2500, 2500), (4999, 1), (300, 300), (3000, 3000), (5000, 1)]
+
+
+def gen_jumps(tier):
+    k = 0
+    jumps = JUMPS_T if tier == "thorough" else JUMPS_Q
+    for mode in ("select", "epoll"):
+        for b, base in enumerate(JBASES):
+            head = ["cfg mode=%s timeout=10" % mode, "start"]
+            for pos in range(2, len(base) + 1):
+                for j in jumps:
+                    for tail in ([], ["round"]):
+                        yield ["case j%d" % k] + head + base[:pos] + ["tickback %d" % j] + tail + base[pos:]
+                        k += 1
+            step = 1 if tier == "thorough" else 3
+            for p1 in range(2, len(base), step):
+                for p2 in range(p1 + 1, len(base) + 1, step):
+                    for (j1, j2) in JPAIRS:
+                        yield ["case j%d" % k] + head + base[:p1] + ["tickback %d" % j1] + base[p1:p2] + \
+                              ["tickback %d" % j2, "round"] + base[p2:]
+                        k += 1
+
+
+# white-box conversion cases: the hint poked to boundary / random uint64 values in several daemon states
+CONV_VALUES = [0, 1, 99, 100, 101, 999, 1000, 1001, 2 ** 31 - 2, 2 ** 31 - 1, 2 ** 31, 2 ** 32 - 1, 2 ** 32,
+               2 ** 63 - 2, 2 ** 63 - 1, 2 ** 63, 2 ** 63 + 1, 2 ** 64 - 2, 2 ** 64 - 1]
+CONV_CAPS = [-1, 0, 1, 250, 2 ** 31 - 1]
+CONV_STATES = [
+    ["arrive 0", "round"],                                   # one connection, tail of the normal list
+    ["arrive 0", "round", "set-timeout 0 7"],                # on the manual list
+    ["arrive 0", "arrive 1", "round", "tick 500", "send 1", "round"],   # two candidates
+    ["arrive 0", "round", "arrive 1"],                       # have_new pending: hint 0
+    ["arrive 0", "round", "tick 2000", "tickback 300"],      # clock behind the high-water mark
+]
+
+
+def gen_conv(rng, nrand):
+    k = 0
+    for mode in ("select", "epoll"):
+        for T in (10, 0):
+            for st in CONV_STATES:
+                lines = ["case v%d" % k, "cfg mode=%s timeout=%d" % (mode, T), "start", "conv 0 5 -1"] + st
+                for x in CONV_VALUES:
+                    for cap in CONV_CAPS:
+                        lines.append("conv 0 %d %d" % (x, cap))
+                for _ in range(nrand):
+                    x = rng.choice([rng.getrandbits(64), rng.getrandbits(32), rng.getrandbits(63), 2 ** 63 + rng.getrandbits(20),
+                                    2 ** 31 + rng.randint(-3, 3), rng.randint(0, 20000)])
+                    cap = rng.choice([-1, -1, 0, rng.randint(1, 2 ** 31 - 1), rng.randint(1, 5000)])
+                    lines.append("conv 0 %d %d" % (x, cap))
+                lines += ["tick 100", "round"]
+                k += 1
+                yield lines
+
+
+CONV = re.compile(r"^conv h=(\S+) ull=(\S+) s64=(-?\d+) i=(-?\d+) ms=(-?\d+) msi=(-?\d+)$")
+
+
+def conv_oracle(op, line):
+    """the wrappers re-stated over the hint the real MHD_get_timeout64 returned"""
+    m = CONV.match(line)
+    if not m:
+        return None if line == "bad-op" else "harness: " + line
+    cap = int(op.split()[3])
+    h = None if m.group(1) == "none" else int(m.group(1))
+    ull = None if m.group(2) == "none" else int(m.group(2))
+    s64, vi, ms, msi = (int(m.group(i)) for i in (3, 4, 5, 6))
+    I64, I32 = 2 ** 63 - 1, 2 ** 31 - 1
+    if ull != h:
+        return "MHD_get_timeout gives %s, MHD_get_timeout64 %s" % (ull, h)
+    if s64 != (-1 if h is None else min(h, I64)):
+        return "MHD_get_timeout64s gives %d for hint %s" % (s64, h)
+    if vi != (-1 if h is None else min(h, I32)):
+        return "MHD_get_timeout_i gives %d for hint %s" % (vi, h)
+    exp = 0 if cap == 0 else cap if h is None else min(h, I64, cap if cap > 0 else I64)
+    if ms != exp:
+        return "get_timeout_millisec_ gives %d for hint %s cap %d" % (ms, h, cap)
+    if msi != min(exp, I32):
+        return "get_timeout_millisec_int gives %d for hint %s cap %d" % (msi, h, cap)
+    if h is not None and (msi > h or ms > h or vi > h or s64 > h):
+        return "a wrapper waits longer than the hint %d" % h
+    return None
+
+
 # ----------------------------------------------------------------------------- Spec
 
 def signature(kind, det):
@@ -337,12 +470,20 @@ def signature(kind, det):
     return "tmo: " + s[:160]
 
 
+def new_stats():
+    return {k: 0 for k in ("ops", "to", "su", "cc", "co", "hint0", "hintnone", "hintpos", "badop", "tickback",
+                           "rounds_back_1_5000", "rounds_back_gt5000", "tmo_close_while_back",
+                           "conv", "conv_plain", "conv_clamped", "conv_none")}
+
+
 class Spec:
     props_module = "Mhd.Props.C10"
     lean_targets = ["Mhd.Props.C10", "drv_tmo"]
     required_theorems = ["Mhd.C10.current_is_repaired", "Mhd.C10.closeDecision_exact", "Mhd.C10.suspended_never_timedOut",
                          "Mhd.C10.wait_in_sync_with_close", "Mhd.C10.wait_bound", "Mhd.C10.jumpBack_tolerated",
-                         "Mhd.C10.jumpBack_wait", "Mhd.C10.bigJumpBack_closes", "Mhd.C10.inv_reachable",
+                         "Mhd.C10.jumpBack_wait", "Mhd.C10.bigJumpBack_closes", "Mhd.C10.closeDecision_exact_smallJump",
+                         "Mhd.C10.clock_displacement", "Mhd.C10.clock_highWater", "Mhd.C10.stamps_within_tolerance",
+                         "Mhd.C10.inv_reachable",
                          "Mhd.C10.normalList_sorted", "Mhd.C10.no_list_corruption",
                          "Mhd.C10.round_closes_only_expired", "Mhd.C10.round_sound_any_state",
                          "Mhd.C10.suspended_not_closed_by_round", "Mhd.C10.epoll_round_closes_every_expired",
@@ -353,14 +494,29 @@ class Spec:
                          "Mhd.C10.hint_zero_when_pending",
                          "Mhd.C10.asIs_F11_hint_exceeds_deadline", "Mhd.C10.asIs_F11_epoll_expired_not_closed",
                          "Mhd.C10.asIs_F11b_override_ignored_while_suspended",
-                         "Mhd.C10.asIs_F11c_new_connection_breaks_order", "Mhd.C10.asIs_F11d_hint_skips_expired"]
+                         "Mhd.C10.asIs_F11c_new_connection_breaks_order", "Mhd.C10.asIs_F11d_hint_skips_expired",
+                         "Mhd.C10.asIs_F11e_jump_breaks_order", "Mhd.C10.asIs_F11e_epoll_expired_not_closed",
+                         "Mhd.C10.repaired_F11e", "Mhd.C10.largeDisplacement_closes_idle",
+                         "Mhd.C10.conversions_never_longer", "Mhd.C10.legacy_wrappers_exact", "Mhd.C10.loop_timeout_exact",
+                         "Mhd.C10.select_timeval_exact", "Mhd.C10.thread_timeval_exact",
+                         "Mhd.C10.thread_timeval_huge_negative", "Mhd.C10.loop_wait_le_earliest_deadline"]
     trusted_base = ["Lean 4 kernel", "axioms: propext, Classical.choice, Quot.sound at most (audited per theorem)",
-                    "hand-written model lean/Mhd/Model/Tmo.lean + TmoLoop.lean tied to connection.c/daemon.c by this run's "
-                    "correspondence (every output line incl. white-box dump of the timeout lists)",
-                    "gen_tmo: numeric constants by source pattern, behaviour flags by probe scripts on the real code",
+                    "hand-written model lean/Mhd/Model/Tmo.lean + TmoLoop.lean + TmoConv.lean tied to connection.c/daemon.c by this "
+                    "run's correspondence (every output line incl. white-box dump of the timeout lists; `conv`: the four "
+                    "public wrappers and the two static get_timeout_millisec_* on poked hints)",
+                    "gen_tmo: numeric constants by source pattern, behaviour flags by probe scripts on the real code, "
+                    "type sizes from MHD_config.h, the inline timeval/poll conversions of thread_main_handle_connection "
+                    "and MHD_select by source pattern only",
                     "harness/h_tmo.c (virtual clock, socketpairs, kernel epoll/select), gcc, ASan/UBSan"]
-    assumptions = ["single-threaded external polling (select and epoll); thread-per-connection and poll() loops not driven",
-                   "monotone clock in the history theorems (backward jumps: function-level theorems only)",
+    assumptions = ["single-threaded external polling (select and epoll) is what is driven; of the internal-thread and "
+                   "thread-per-connection loops only the conversion of the hint into the poll/epoll/select timeout is "
+                   "modelled (wrappers and the two static functions tied by white-box differential, the two inline "
+                   "timeval conversions by source pattern only)",
+                   "clock: any sequence of forward and backward steps; exactness and the hint bound are claimed for "
+                   "states whose clock is at most 5000 ms (the code's own tolerance) behind the highest value it has shown; "
+                   "beyond that the code closes connections by its documented 'too large jump back' rule "
+                   "(theorem largeDisplacement_closes_idle)",
+                   "LP64 type sizes for the conversions (checked against MHD_config.h on every run)",
                    "virtual times < 2^62 ms, timeouts as settable through the API (< 2^32 s)",
                    "the scripted clients never complete a request: activity = received bytes only (no reply traffic)"]
 
@@ -368,7 +524,7 @@ class Spec:
         self.flags = gen_tmo()
 
     def build(self, ctx):
-        self.harness = vlib.build_daemon_harness(name="h_tmo", src="harness/h_tmo.c")
+        self.harness = build_harness()
         self.driver = vlib.driver_path("drv_tmo")
 
     # -- one batch of cases through both executables
@@ -395,13 +551,24 @@ class Spec:
                 h = hout[k + j]
                 m = mout[k + j] if k + j < len(mout) else "<no output>"
                 if j >= 3:
-                    e = orc.feed(op, h)
+                    isconv = op.startswith("conv ")
+                    e = conv_oracle(op, h) if isconv else orc.feed(op, h)
                     if e:
                         bad = ("oracle", e, j); break
                 if h != m:
                     bad = ("diff", "op '%s': code says '%s', model says '%s'" % (op, h, m), j); break
-                if j >= 3 and h != "bad-op":
+                if j >= 3 and h != "bad-op" and isconv:
+                    stats["conv"] += 1
+                    stats["conv_none" if " h=none " in h else "conv_clamped" if " i=2147483647 " in h else "conv_plain"] += 1
+                elif j >= 3 and h != "bad-op":
                     stats["ops"] += 1
+                    if op.startswith("tickback"):
+                        stats["tickback"] += 1
+                    if op == "round" and orc.prev is not None:
+                        bk = orc.hw - orc.prev["now"]
+                        if bk > 5000: stats["rounds_back_gt5000"] += 1
+                        elif bk > 0: stats["rounds_back_1_5000"] += 1
+                        if bk > 0 and any(e.startswith("to") for e in orc.prev["ev"]): stats["tmo_close_while_back"] += 1
                     for e in re.findall(r"ev=\[([^\]]*)\]", h)[0].split(","):
                         if e[:2] in ("to", "su", "cc", "co"):
                             stats[e[:2]] += 1
@@ -418,7 +585,7 @@ class Spec:
 
     def still_fails(self, case, kind, sig):
         fl = []
-        st = {"ops": 0, "to": 0, "su": 0, "cc": 0, "co": 0, "hint0": 0, "hintnone": 0, "hintpos": 0, "badop": 0}
+        st = new_stats()
         self.run_batch([case], fl, st)
         return any(f.kind == kind and f.signature == sig for f in fl), fl
 
@@ -448,7 +615,7 @@ class Spec:
 
     def explore(self, ctx, boost):
         failures = []
-        stats = {"ops": 0, "to": 0, "su": 0, "cc": 0, "co": 0, "hint0": 0, "hintnone": 0, "hintpos": 0, "badop": 0}
+        stats = new_stats()
         cases = []
         cdir = os.path.join(vlib.VERIF, "corpus", ENGINE)
         ncorp = 0
@@ -460,7 +627,9 @@ class Spec:
         exh = list(gen_exhaustive(depth))
         nrand = (20000 if ctx.tier == "thorough" else 2000) * (3 if boost else 1)
         rnd = [gen_history(ctx.rng, "r%d" % i) for i in range(nrand)]
-        allc = cases + exh + rnd
+        jmp = list(gen_jumps(ctx.tier))
+        cnv = list(gen_conv(ctx.rng, 400 if ctx.tier == "thorough" else 60))
+        allc = cases + jmp + cnv + exh + rnd
         B = 400
         for i in range(0, len(allc), B):
             self.run_batch(allc[i:i + B], failures, stats)
@@ -472,7 +641,15 @@ class Spec:
                "rule": "histories run on the real daemon and on the Lean model, every output line compared (events, hint, "
                        "clock, pending flags, the five lists in pointer order, per-connection stamp/timeout/flags); distinct = "
                        "different scripts; bounded-exhaustive: all sequences of <= %d composite ops over a %d-op alphabet, "
-                       "2 modes; random: 1-3 connections, default timeout in {0,3,5,10} s" % (depth, len(ALPHA)),
+                       "2 modes; random: 1-3 connections, default timeout in {0,3,5,10} s, 35%% of them with backward "
+                       "clock jumps; jump histories: a backward jump of every size in the list at every position of 3 base "
+                       "histories (alone and followed by a round) + pairs of jumps, 2 modes; conv: the hint poked to "
+                       "boundary and random uint64 values x caps in 5 daemon states x 2 modes x default timeout {10,0}, the "
+                       "four public wrappers and the two static get_timeout_millisec_* compared with the model and with "
+                       "the arithmetic oracle" % (depth, len(ALPHA)),
+               "jump_sizes_ms": JUMPS_T if ctx.tier == "thorough" else JUMPS_Q, "jump_pairs_ms": JPAIRS,
+               "jump_histories": len(jmp), "conv_scripts": len(cnv),
+               "conv_boundary_values": len(CONV_VALUES), "conv_caps": CONV_CAPS,
                "samples": [rnd[0], exh[len(exh) // 2]] if rnd else [],
                "exhaustive_histories": len(exh), "random_histories": len(rnd), "corpus": ncorp,
                "outcomes": stats, "behaviour_flags": getattr(self, "flags", {}), "exhaustive": False}
@@ -486,7 +663,7 @@ def replay(ctx, path):
         print("replay file names a proof obligation / correspondence that no longer checks:", r.get("no_longer_checks"))
         return 1
     fl = []
-    st = {"ops": 0, "to": 0, "su": 0, "cc": 0, "co": 0, "hint0": 0, "hintnone": 0, "hintpos": 0, "badop": 0}
+    st = new_stats()
     sp.run_batch([r["input"]], fl, st)
     for f in fl:
         print(f.kind, f.signature, f.detail)
